@@ -103,6 +103,16 @@ CHECKS = {
               "field list); witnesses of the four repaired defects under quirk flags; model tied to the code over a 52-pattern catalogue x "
               "targets x zones x positions x document modes with per-run quirk probes"),
         technique='Lean 4 proof over a hand model + differential correspondence + quirk probes', ref='4 C17'),
+    'C19': dict(
+        text=("Lean theorems over a model of the schema generator (type inference, the three merges, naming, rendering, the CLI as a "
+              "state machine): the schema covers its source document — a field for every key at every path, null => Optional, scalar "
+              "types present (mutual induction over the merges), Optional merge at any depth, determinism and independence of earlier "
+              "runs, merge commutes on field-name sets, well-scopedness of the rendered module (imports registered, class references "
+              "defined), names resolve under NamesOK, CLI error path; witnesses of every recorded finding. Tie: imports, class order, "
+              "field names, annotation text and AST compared with the real generator over corpus + random documents x 4 flag "
+              "combinations, history pairs in forked children, CLI subprocess cases. 'Imports and loads its source' is decided by the "
+              "oracle on the real module; it is false on the unchanged tree for the recorded shapes"),
+        technique='Lean 4 proof over a hand model + differential correspondence + import/load oracle', ref='4 C19'),
     'C20': dict(
         text=("Lean theorems over an interleaving model of the lock-free lazy initialisation (fill entries, publish flag last; build, "
               "publish with one store; scan a snapshot): for any number of threads and any schedule every finished call returns the "
